@@ -144,6 +144,19 @@ func gen(tier string) []proto.Item {
 				}
 			}
 		}
+		// SACK: an acknowledgement from the target's address AND port to this host but to ANOTHER local port (a neighbouring
+		// connection to the same service), with and without blocks, where the capture handle is not filtered by port: it is
+		// not on the probed connection, so it is not "the target acknowledging without blocks" either
+		if vi.Kind == "sack" {
+			for _, form := range []string{"plainack", "sack1"} {
+				for _, t := range []int{1, 2, 3} {
+					s := base(v, false)
+					s.FiltersOff = true
+					s.Inject = []proto.Inject{{OnTTL: t, AnswerTTL: t, Form: form, From: s.Target().String(), DelayUs: 1500, Tag: "noise", Rewrite: []simnet.Perturb{{Field: "tcp.dport", Op: "+1"}}}}
+					items = append(items, proto.Item{Scn: s, Class: fmt.Sprintf("%s/%s/neighbouring-connections-segment/foreign-flow/interleaved/ttl%d", v, form, t)})
+				}
+			}
+		}
 		// TCP SYN: a segment on the probed connection's ports, from the target, that acknowledges something else than the probe
 		// (a stale reset of an earlier connection on the same ports, a blind reset, a SYN-ACK for another sequence number),
 		// while the probes of the hops BEFORE the destination are outstanding: it answers nothing, the run goes on
